@@ -158,3 +158,15 @@ M("c19-snr", "C19", "extra/rtlreader.py", "        min_sig_amp = 3.162 * self.no
 M("c19-df11", "C19", "extra/rtlreader.py", "        elif df in [4, 5, 11] and msglen == 14:\n            return True\n        return False", "        elif df in [4, 5] and msglen == 14:\n            return True\n        return False")
 M("c19-jump", "C19", "extra/rtlreader.py", "                i = frame_start + j\n", "                i = frame_start + j + 300\n")
 M("c19-bit", "C19", "extra/rtlreader.py", "                    elif p2[0] >= p2[1]:\n                        c = 1", "                    elif p2[0] >= p2[1] * 1.3:\n                        c = 1")
+
+# ---- C17
+M("c17-180", "C17", "streamer/decode.py", '(t - self.acs[icao]["tpos"] < 180)', '(t - self.acs[icao]["tpos"] < 1800)')
+M("c17-10", "C17", "streamer/decode.py", '(abs(self.acs[icao]["t0"] - self.acs[icao]["t1"]) < 10)', '(abs(self.acs[icao]["t0"] - self.acs[icao]["t1"]) < 100)')
+M("c17-except", "C17", "streamer/decode.py", "                    except:\n                        # mix of surface and airborne position message", "                    except ValueError:\n                        # mix of surface and airborne position message")
+M("c17-timeout", "C17", "streamer/decode.py", "        self.cache_timeout = 60  # seconds", "        self.cache_timeout = 45  # seconds")
+M("c17-gate", "C17", "streamer/decode.py", "            if icao not in self.acs:\n                continue\n\n            self.acs[icao][\"icao\"] = icao\n            self.acs[icao][\"t\"] = t\n            # Comm-B", "            if icao not in self.acs:\n                self.acs[icao] = {\"live\": int(t)}\n\n            self.acs[icao][\"icao\"] = icao\n            self.acs[icao][\"t\"] = t\n            # Comm-B")
+M("c17-D20-regress", "C17", "streamer/decode.py", '            self.acs[icao]["live"] = max(self.acs[icao]["live"], int(t))', '            self.acs[icao]["live"] = int(t)')
+M("c17-D3-regress", "C17", "py_common.py", "        addr = msg[2:8].upper()", "        addr = msg[2:8]")
+M("c17-ref-latlon", "C17", "streamer/decode.py", '                    rlat = self.acs[icao]["lat"]\n                    rlon = self.acs[icao]["lon"]', '                    rlat = self.lat0\n                    rlon = self.lon0')
+M("c17-oe", "C17", "streamer/decode.py", '                self.acs[icao]["t" + str(oe)] = t\n', '                self.acs[icao]["t" + str(oe)] = int(t)\n')
+M("c17-evict-never", "C17", "streamer/decode.py", '            if self.t - self.acs[icao]["live"] > self.cache_timeout:', '            if self.t - self.acs[icao]["live"] > self.cache_timeout and self.acs[icao]["call"] is None:')
